@@ -768,7 +768,7 @@ Proof.
   simpl in Hf. apply andb_false_iff in Hf. exact Hf.
 Qed.
 
-Lemma accepted_listed ae name : accepted ae name = true <-> exists e, In e (split 44 ae) /\ trim_space e = name.
+Lemma accepted_listed ae name : accepted ae name = true <-> exists e, In e (split 44 ae) /\ trim e = name.
 Proof.
   unfold accepted. rewrite existsb_exists. split; intros (e & Hin & He); exists e; split; auto.
   - apply beq_eq. exact He.
@@ -1234,21 +1234,18 @@ Proof.
     cbn [existsb]. rewrite Hlow, beq_refl. reflexivity.
 Qed.
 
-(* the white space around the elements of the header is SP / HTAB only (what RFC 7230 allows
-   there; strings.TrimSpace also strips Unicode white space and the other ASCII controls) *)
-Definition plain_ows (ae : bytes) : Prop := forall e, In e (split 44 ae) -> trim_space e = trim e.
-
+(* every Accept-Encoding byte string: the file server strips SP / HTAB only (what RFC 7230 allows
+   around a list element), exactly as the RFC reading does, so no condition on the header is needed *)
 Lemma sibling_only_if_offered prio ae avail name ext :
   select_sibling prio ae avail = Some (name, ext) ->
-  plain_ows ae -> ~ In 59 name -> to_lower name = name ->
+  ~ In 59 name -> to_lower name = name ->
   avail ext = true /\ offers_coding ae name = true.
 Proof.
-  intros Hsel Hws Hsemi Hlow.
+  intros Hsel Hsemi Hlow.
   destruct (select_sibling_sound _ _ _ _ _ Hsel) as (Ha & Hv & _).
   split; [exact Hv|].
   apply accepted_listed in Ha as (e & Hin & He).
-  apply (offers_coding_of_plain_element ae e name); auto.
-  rewrite <- (Hws e Hin). exact He.
+  exact (offers_coding_of_plain_element ae e name Hin He Hsemi Hlow).
 Qed.
 
 (* the names of the table in the sources are such tokens *)
@@ -1263,24 +1260,37 @@ Proof.
 Qed.
 
 Lemma sibling_only_if_offered_table ae avail name ext :
-  select_sibling gen_c18_static_priority ae avail = Some (name, ext) -> plain_ows ae ->
+  select_sibling gen_c18_static_priority ae avail = Some (name, ext) ->
   avail ext = true /\ offers_coding ae name = true.
 Proof.
-  intros Hsel Hws.
+  intros Hsel.
   destruct (select_sibling_sound _ _ _ _ _ Hsel) as (_ & _ & l1 & l2 & E & _).
   pose proof prio_names_tokens as Ht. rewrite forallb_forall in Ht.
   assert (Hin : In (name, ext) gen_c18_static_priority) by (rewrite E; apply in_or_app; right; left; reflexivity).
   specialize (Ht _ Hin). cbn [fst] in Ht. apply andb_true_iff in Ht as [H1 H2].
   apply negb_true_iff in H1. apply existsb_eqb_in in H1. apply beq_eq in H2.
-  exact (sibling_only_if_offered _ _ _ _ _ Hsel Hws H1 H2).
+  exact (sibling_only_if_offered _ _ _ _ _ Hsel H1 H2).
 Qed.
 
-(* without the condition on the white space the RFC reading is not implied: U+00A0 after the name *)
-Lemma sibling_only_if_offered_refuted :
-  exists ae name ext,
-    select_sibling gen_c18_static_priority ae (fun e => beq e (bs ".gz")) = Some (name, ext) /\
-    offers_coding ae name = false.
-Proof. exists (bs "gzip" ++ [194; 160]), (bs "gzip"), (bs ".gz"). vm_compute. split; reflexivity. Qed.
+(* Unicode white space (and any other byte) around a coding's name is part of the element: with
+   every sibling on disk such a request gets the identity file (U+00A0, U+0085, U+2003, U+3000 in
+   UTF-8, before / after the name; VT, FF, CR, LF, NUL likewise), while SP / HTAB are stripped *)
+Lemma sibling_unicode_space_refused :
+  forallb (fun c =>
+    forallb (fun ws =>
+      match select_sibling gen_c18_static_priority (fst c ++ ws) (fun _ => true),
+            select_sibling gen_c18_static_priority (ws ++ fst c) (fun _ => true),
+            select_sibling gen_c18_static_priority (bs "identity," ++ ws ++ fst c ++ ws ++ bs ",x") (fun _ => true) with
+      | None, None, None => true | _, _, _ => false end)
+      [[194; 160]; [194; 133]; [226; 128; 131]; [227; 128; 128]; [11]; [12]; [13]; [10]; [0]; [32; 194; 160]; [194; 160; 9]])
+    gen_c18_static_priority = true /\
+  forallb (fun c =>
+    forallb (fun ws =>
+      match select_sibling gen_c18_static_priority (bs "identity," ++ ws ++ fst c ++ ws ++ bs ",x") (fun _ => true) with
+      | Some ne => beq (fst ne) (fst c) | None => false end)
+      [[]; [32]; [9]; [32; 9; 32]])
+    gen_c18_static_priority = true.
+Proof. vm_compute. split; reflexivity. Qed.
 
 (* q-value spellings: a coding that carries any parameter is not taken for offered by the file
    server (q=0 refuses; q=1 is not understood either: the identity file is served) *)
@@ -1292,81 +1302,3 @@ Lemma sibling_param_spellings_refused :
     gen_c18_static_priority = true.
 Proof. vm_compute. reflexivity. Qed.
 
-(* printable ASCII and HTAB: on such strings strings.TrimSpace and the RFC's OWS trimming agree *)
-Definition vis (c : N) : bool := (c =? 9) || ((32 <=? c) && (c <? 127)).
-
-Lemma vis_space c : vis c = true -> is_space c = is_ows c.
-Proof.
-  unfold vis, is_space, is_ows. intros H.
-  destruct (N.eqb_spec c 9) as [E9|H9]; [subst c; reflexivity|]. cbn [orb] in H.
-  apply andb_true_iff in H as [H1 H2]. apply N.leb_le in H1. apply N.ltb_lt in H2.
-  destruct (N.eqb_spec c 32) as [E32|H32]; [subst c; reflexivity|].
-  cbn [orb]. apply andb_false_iff. right. apply N.leb_gt. lia.
-Qed.
-
-Lemma vis_lt c : vis c = true -> c < 128.
-Proof.
-  unfold vis. intros H. destruct (N.eqb_spec c 9) as [E9|H9]; [lia|]. cbn [orb] in H.
-  apply andb_true_iff in H as [_ H2]. apply N.ltb_lt in H2. lia.
-Qed.
-
-Lemma sp2_low c1 c2 : c1 < 128 -> sp2 c1 c2 = false.
-Proof. intros H. unfold sp2. destruct (N.eqb_spec c1 194); [lia | reflexivity]. Qed.
-Lemma sp3_low c1 c2 c3 : c1 < 128 -> sp3 c1 c2 c3 = false.
-Proof.
-  intros H. unfold sp3.
-  destruct (N.eqb_spec c1 225); [lia|]. destruct (N.eqb_spec c1 226); [lia|]. destruct (N.eqb_spec c1 227); [lia|].
-  reflexivity.
-Qed.
-
-Lemma ltrim_sp_vis s : forallb vis s = true -> ltrim_sp s = ltrim s.
-Proof.
-  induction s as [|c r IH]; [reflexivity|]. cbn [forallb]. intros H. apply andb_true_iff in H as [Hc Hr].
-  cbn [ltrim_sp ltrim]. rewrite (vis_space c Hc). destruct (is_ows c); [exact (IH Hr)|].
-  destruct r as [|c2 r2]; [reflexivity|]. rewrite (sp2_low c c2 (vis_lt c Hc)).
-  destruct r2 as [|c3 r3]; [reflexivity|]. rewrite (sp3_low c c2 c3 (vis_lt c Hc)). reflexivity.
-Qed.
-
-Lemma ltrim_sp_rev_vis s : forallb vis s = true -> ltrim_sp_rev s = ltrim s.
-Proof.
-  induction s as [|c r IH]; [reflexivity|]. cbn [forallb]. intros H. apply andb_true_iff in H as [Hc Hr].
-  cbn [ltrim_sp_rev ltrim]. rewrite (vis_space c Hc). destruct (is_ows c); [exact (IH Hr)|].
-  destruct r as [|c2 r2]; [reflexivity|]. cbn [forallb] in Hr. apply andb_true_iff in Hr as [Hc2 Hr2].
-  rewrite (sp2_low c2 c (vis_lt c2 Hc2)).
-  destruct r2 as [|c3 r3]; [reflexivity|]. cbn [forallb] in Hr2. apply andb_true_iff in Hr2 as [Hc3 _].
-  rewrite (sp3_low c3 c2 c (vis_lt c3 Hc3)). reflexivity.
-Qed.
-
-Lemma ltrim_forallb (P : N -> bool) s : forallb P s = true -> forallb P (ltrim s) = true.
-Proof.
-  induction s as [|c r IH]; [auto|]. cbn [forallb ltrim]. intros H.
-  destruct (is_ows c); [apply andb_true_iff in H as [_ H]; exact (IH H) | exact H].
-Qed.
-
-Lemma forallb_rev (P : N -> bool) s : forallb P s = true -> forallb P (rev s) = true.
-Proof.
-  intros H. apply forallb_forall. intros x Hx. apply in_rev in Hx. rewrite forallb_forall in H. exact (H x Hx).
-Qed.
-
-Lemma trim_space_vis s : forallb vis s = true -> trim_space s = trim s.
-Proof.
-  intros H. unfold trim_space, trim. rewrite (ltrim_sp_vis s H).
-  rewrite ltrim_sp_rev_vis; [reflexivity|]. apply forallb_rev. apply ltrim_forallb. exact H.
-Qed.
-
-Lemma split_on_forallb (P : N -> bool) sep s : forall cur e,
-  forallb P s = true -> forallb P cur = true -> In e (split_on sep s cur) -> forallb P e = true.
-Proof.
-  induction s as [|c r IH]; intros cur e Hs Hc Hin; cbn [split_on] in Hin.
-  - destruct Hin as [<- | []]. apply forallb_rev. exact Hc.
-  - cbn [forallb] in Hs. apply andb_true_iff in Hs as [Hc0 Hr].
-    destruct (c =? sep).
-    + destruct Hin as [<- | Hin]; [apply forallb_rev; exact Hc | exact (IH [] e Hr eq_refl Hin)].
-    + apply (IH (c :: cur) e Hr); [cbn [forallb]; rewrite Hc0, Hc; reflexivity | exact Hin].
-Qed.
-
-Lemma vis_plain_ows ae : forallb vis ae = true -> plain_ows ae.
-Proof.
-  intros H e Hin. apply trim_space_vis. unfold split in Hin.
-  exact (split_on_forallb vis 44 ae [] e H eq_refl Hin).
-Qed.
